@@ -1,21 +1,11 @@
-"""Per-property configuration of the check driver."""
-PROPS = {
-    "C13": {
-        "props_file": "props/C13.v",
-        "layers": ["cells"],
-        "gen_files": ["CellWidthTable.v"],
-        "exhaustive": ["all 1,114,112 code points: model bsearch vs implementation vs linear-scan spec"],
-        "theorems": {
-            "C13_bsearch_is_linear": "full: every sorted non-empty table, every integer code point",
-            "C13_cw_spec": "full: today's table (regenerated), widths in {0,1,2}, ASCII shortcut consistent",
-            "C13_cell_len_sum": "full", "C13_cache_transparent": "full: any call history and capacity",
-            "C13_cache_bounded": "full", "C13_set_cell_size_spec": "full (n >= 0)",
-            "C13_chop_cells_spec": "full (width >= 2)", "C13_adjust_line_length_spec": "full (n >= 0)",
-            "C13_split_and_crop_asis_refuted": "refutation witness of the pre-fix behaviour (D2)",
-            "split_and_crop_lines / set_shape composition": "not yet a theorem: validated by spec checkers on the implementation",
-        },
-        "level_text": "Machine-checked Coq theorems, unbounded in strings/tables/histories, about an executable model of rich.cells, LRUCache use and Segment line shaping; the width table is regenerated from /repo each run and the model is compared with the implementation on every code point and on generated strings/segment lists.",
-        "level_note": "Trusted: Coq kernel+vm_compute, table translator, ExtrOcamlBasic extraction, OCaml, the harness; functools.lru_cache assumed a pure memo; OrderedDict semantics as modelled (get() does not reorder). split_and_crop_lines/set_shape are covered through adjust_line_length's theorem plus spec checks on implementation output, not yet by their own composition theorem.",
-        "assumptions": ["functools.lru_cache is a pure memo table", "style tokens abstracted to integers (parametric)"],
-    },
-}
+"""Per-property configuration of the check driver: one fragment file tools/props_Cnn.py per
+property, each defining CONFIG = {...}."""
+import glob, importlib.util, os
+HERE = os.path.dirname(os.path.abspath(__file__))
+PROPS = {}
+for path in sorted(glob.glob(os.path.join(HERE, "props_C*.py"))):
+    pid = os.path.basename(path)[6:-3]
+    spec = importlib.util.spec_from_file_location("props_" + pid, path)
+    mod = importlib.util.module_from_spec(spec)
+    spec.loader.exec_module(mod)
+    PROPS[pid] = mod.CONFIG
